@@ -70,8 +70,15 @@ class Rng:
         return self.n_step
 
 
+TABLE = 0
+
+
 def h_table(i):
-    return 0.8 * math.sin(1.3 * i) + 0.05 * i * i * (1 if -9 <= i <= 9 else 1)
+    if TABLE == 1:
+        return 0.3 * abs(i) + 0.6 * math.cos(2.1 * i + 0.4)
+    if TABLE == 2:
+        return 0.02 * i ** 4 - 0.3 * i * i + 0.1 * i
+    return 0.8 * math.sin(1.3 * i) + 0.05 * i * i
 
 
 class System:
@@ -105,6 +112,9 @@ def mk_state(i, d):
 def crit_table(system, s1, s2, sum_mom):
     lo, hi = int(round(float(s1.pos[0]))), int(round(float(s2.pos[0])))
     return ((lo * 7 + hi * 3 + (hi - lo)) % 5) == 0  # arbitrary function of the sub-trajectory's ends: symmetric by construction
+
+
+CRITERIA = {"table": crit_table, "riemannian": T.riemannian_no_u_turn_criterion, "euclidean": T.euclidean_no_u_turn_criterion}
 
 
 def enumerate_kernel(make_transition, start, d, slice_u=None, n_step=None, fail_edges=()):
@@ -158,11 +168,11 @@ def check_metropolis(res):
     res["metropolis"] = {"ok": not bad, "max_err": worst, "witness": bad[:3]}
 
 
-def check_multinomial(res, depth=3):
+def check_multinomial(res, depth=3, crits=("table",)):
     worst, bad = 0.0, []
-    for extra in (True, False):
+    for extra, cname in [(e, c) for e in (True, False) for c in crits]:
         for maxdh in (1000.0,):
-            mk = lambda s, i: T.MultinomialDynamicIntegrationTransition(s, i, max_tree_depth=depth, max_delta_h=maxdh, termination_criterion=crit_table, do_extra_subtree_checks=extra)
+            mk = lambda s, i: T.MultinomialDynamicIntegrationTransition(s, i, max_tree_depth=depth, max_delta_h=maxdh, termination_criterion=CRITERIA[cname], do_extra_subtree_checks=extra)
             R = 2 ** depth
             K = {}
             for s in range(-R - 2, R + 3):
@@ -173,14 +183,14 @@ def check_multinomial(res, depth=3):
                 err = abs(tot - math.exp(-h_table(x)))
                 worst = max(worst, err)
                 if err > 1e-9:
-                    bad.append(("Multinomial", "extra", extra, "end", x, tot, math.exp(-h_table(x))))
+                    bad.append(("Multinomial", "table", TABLE, "criterion", cname, "extra", extra, "end", x, tot, math.exp(-h_table(x))))
     res["multinomial"] = {"ok": not bad, "max_err": worst, "witness": bad[:3]}
 
 
-def check_slice(res, depth=2):
+def check_slice(res, depth=2, crits=("table",)):
     worst, bad = 0.0, []
-    for extra, maxdh in ((True, 1000.0), (False, 0.9)):
-        mk = lambda s, i: T.SliceDynamicIntegrationTransition(s, i, max_tree_depth=depth, max_delta_h=maxdh, termination_criterion=crit_table, do_extra_subtree_checks=extra)
+    for extra, maxdh, cname in [(e, m, c) for (e, m) in ((True, 1000.0), (False, 0.9)) for c in crits]:
+        mk = lambda s, i: T.SliceDynamicIntegrationTransition(s, i, max_tree_depth=depth, max_delta_h=maxdh, termination_criterion=CRITERIA[cname], do_extra_subtree_checks=extra)
         R = 2 ** depth
         starts = list(range(-R - 2, R + 3))
         window = list(range(-2 * R - 4, 2 * R + 5))
@@ -204,16 +214,50 @@ def check_slice(res, depth=2):
             err = abs(tot - math.exp(-h_table(x)))
             worst = max(worst, err)
             if err > 1e-9:
-                bad.append(("Slice", "extra", extra, "max_delta_h", maxdh, "end", x, tot, math.exp(-h_table(x))))
+                bad.append(("Slice", "table", TABLE, "criterion", cname, "extra", extra, "max_delta_h", maxdh, "end", x, tot, math.exp(-h_table(x))))
     res["slice"] = {"ok": not bad, "max_err": worst, "witness": bad[:3]}
+
+
+def merge(res, part):
+    for k, v in part.items():
+        if k not in res:
+            res[k] = v
+        else:
+            res[k] = {"ok": res[k]["ok"] and v["ok"], "max_err": max(res[k]["max_err"], v["max_err"]), "witness": (res[k]["witness"] + v["witness"])[:3]}
+
+
+def job(args):
+    global TABLE
+    TABLE, kind, crit, depth = args
+    part = {}
+    if kind == "metropolis":
+        check_metropolis(part)
+    elif kind == "multinomial":
+        check_multinomial(part, depth=depth, crits=(crit,))
+    else:
+        check_slice(part, depth=depth, crits=(crit,))
+    return part
 
 
 def main():
     res = {}
-    check_metropolis(res)
-    check_multinomial(res)
-    check_slice(res)
-    if len(sys.argv) > 1 and sys.argv[1] == "json":
+    thorough = "thorough" in sys.argv[1:]
+    jobs = []
+    for table in ((0, 1, 2) if thorough else (0,)):
+        jobs.append((table, "metropolis", None, None))
+        for crit in (("table", "riemannian", "euclidean") if thorough else ("table", "riemannian")):
+            jobs.append((table, "multinomial", crit, 3))
+        for crit in (("table", "riemannian", "euclidean") if thorough else ("table",)):
+            jobs.append((table, "slice", crit, 3 if thorough and table == 0 and crit == "table" else 2))
+    if thorough:
+        import multiprocessing as mp
+        with mp.get_context("fork").Pool(min(16, len(jobs))) as pool:
+            parts = pool.map(job, jobs, chunksize=1)
+    else:
+        parts = [job(j) for j in jobs]
+    for part in parts:
+        merge(res, part)
+    if "json" in sys.argv[1:]:
         print(json.dumps(res, default=str))
         return 0
     badk = [k for k, v in res.items() if not v["ok"]]
